@@ -7,6 +7,7 @@
 From Coq Require Import List NArith Bool.
 Import ListNotations.
 Require Import MV.C12.Model MV.C12.Spec MV.C12.Exec MV.C12.Proofs MV.C12.History MV.C12.ExecProofs.
+Require MV.C12.ExecProm.
 Open Scope N_scope.
 
 Theorem C12_model_meets_spec : forall c h, by_kind c = true -> snd (run c init h) = spec_outs c h.
@@ -55,3 +56,8 @@ Proof. exact kinds_and_keys_independent. Qed.
 Theorem C12_by_key_only_refuted :
   exists c h, by_kind c = false /\ snd (run c init h) <> spec_outs c h.
 Proof. exact by_key_only_refuted. Qed.
+
+(* the same model observed through the Prometheus exporter (whole renders; presence and value only) *)
+Theorem C12_prom_spec_ok_on_model : forall c, by_kind (fst c) = true ->
+  ExecProm.spec_ok c (ExecProm.run_case c) = true.
+Proof. exact ExecProm.prom_spec_ok_on_model. Qed.
